@@ -316,6 +316,43 @@ func checkOrdered[T gocmp.Ordered](alpha []T, idx []int, bits func(T) string) *m
 	return nil
 }
 
+// checkRepeat calls LIS and LNDS on one buffer, changes one element in
+// place and calls them again: the second answer must be about the new contents.
+func checkRepeat(c seqCase, pos, val int) *mc.Failure {
+	return mc.GuardT("lis-repeat", map[string]any{"v": c.V, "pos": pos, "val": val}, func() *mc.Failure {
+		for _, strict := range []bool{true, false} {
+			// the same function twice in a row on the same storage
+			buf := append([]int(nil), c.V...)
+			var got []int
+			name := "LNDS"
+			if strict {
+				name = "LIS"
+				slice.LIS(buf)
+				buf[pos] = val
+				got = slice.LIS(buf)
+			} else {
+				slice.LNDS(buf)
+				buf[pos] = val
+				got = slice.LNDS(buf)
+			}
+			want := append([]int(nil), buf...)
+			if !isSubseq(got, want, func(x, y int) bool { return x == y }) {
+				return mc.Failf(0, "%s(%v) after the same buffer held %v is %v: not a subsequence of the current contents", name, want, c.V, got)
+			}
+			for i := 1; i < len(got); i++ {
+				if strict && got[i-1] >= got[i] || !strict && got[i-1] > got[i] {
+					return mc.Failf(0, "%s(%v) after the same buffer held %v is %v: not ordered", name, want, c.V, got)
+				}
+			}
+			opt := longest(want, func(p, n int) bool { return p < n || !strict && p == n })
+			if len(got) != opt {
+				return mc.Failf(0, "%s(%v) after the same buffer held %v is %v: length %d, optimum %d", name, want, c.V, got, len(got), opt)
+			}
+		}
+		return nil
+	})
+}
+
 func checkTyped(c typedCase) *mc.Failure {
 	return mc.GuardT("lis-typed", c, func() *mc.Failure {
 		if c.Type == "string" {
@@ -464,6 +501,42 @@ func main() {
 					return mc.Failf(-1, "bad trace: %v", err)
 				}
 				return checkHuge(h)
+			},
+		},
+		mc.Harness{
+			Name: "lis-repeat",
+			Explore: func(r *mc.Run) {
+				seqs := mc.AllSeqs(4, mc.Pick(r, 5, 6))
+				var n int64
+				mc.ParallelFor(len(seqs), r.Workers, func(i int) {
+					v := seqs[i]
+					var k int64
+					for pos := range v {
+						for val := 0; val < 4; val++ {
+							if val == v[pos] {
+								continue
+							}
+							if f := checkRepeat(seqCase{V: v}, pos, val); f != nil {
+								r.Violation(mc.Case{Harness: "lis-repeat", Trace: mc.J(map[string]any{"v": v, "pos": pos, "val": val}), Msg: f.Msg})
+							}
+							k++
+						}
+					}
+					atomic.AddInt64(&n, k)
+				})
+				r.AddEval(int64(len(seqs)), n, n, n)
+				r.Rule("LIS and LNDS called on a buffer, one element changed in place (every position, every other value), called again: the second result is judged against the new contents")
+				r.Sample(map[string]any{"v": []int{3, 1, 2}, "pos": 0, "val": 0})
+			},
+			Replay: func(c mc.Case) *mc.Failure {
+				var t struct {
+					V        []int `json:"v"`
+					Pos, Val int
+				}
+				if err := mc.Unmarshal(c.Trace, &t); err != nil {
+					return mc.Failf(-1, "bad trace: %v", err)
+				}
+				return checkRepeat(seqCase{V: t.V}, t.Pos, t.Val)
 			},
 		},
 		mc.Harness{
